@@ -1,7 +1,7 @@
 """C01 — pipeline property decided by the Lean oracle on generated crystals (see checks/pipe.py)."""
 from checks import pipe
 
-PROPS = [("Moyo.Props.C01", "Moyo/Props/C01.lean")]
+PROPS = [("Moyo.Props.C01", "Moyo/Props/C01.lean"), ("Moyo.Props.C01Stages", "Moyo/Props/C01Stages.lean")]
 
 
 def nontrivial(p, line):
@@ -11,7 +11,7 @@ def nontrivial(p, line):
 def run(tier, seed):
     return pipe.run_property("C01", tier, seed, ['super', 'noise', 'hall'], PROPS,
                              {"rule": 'supercell, noise and per-setting cases; a case is non-trivial when a dataset was returned with >= 2 operations and the recorded re-description is not the identity (re-based, shifted or supercell input); distinct = distinct input cells'},
-                             nontrivial,
+                             nontrivial, stages=["s4"],
                              trusted=["premise validation of the generator (the generated crystal has exactly the generating group, symmetry gap >= 0.2 A) is a brute-force search in Rust, independent of moyo",
                                       "f64 rounding inside moyo is not modelled: the oracle judges the returned values in exact rational arithmetic",
                                       "the oracle's float code only orders candidate sites; every verdict is an exact test (Proofs/OracleSite.lean)"])
